@@ -481,6 +481,12 @@ def run(ctx):
     ctx.rule('C05.R4', 'launch binding (shared rule)', floor=8)
     for fam in SA:
         launch_rules(ctx, fam)
+    ctx.rule('C04.R6', 'the gate itself: is_connected answers true only '
+             'for a member of the namespace\'s all-clients room that is not '
+             'pending (a transport that never joined maps to sid None and '
+             'must be refused) (shared rule)', floor=5)
+    from .c04 import r6_manager
+    r6_manager(ctx)
     ctx.rule('C12.R6', 'answers of the message path go to the sender\'s '
              'own transport', floor=8)
     for fam in SA:
